@@ -524,6 +524,38 @@ func scenarios() []*Scenario {
 			return sortedJoin(append([]string{}, a.log...))
 		},
 	})
+	// (3d') the expiry callback re-registers the exchange, as the writer's retransmission does, while another registration
+	// and an acknowledgement arrive: the sweep must be able to call back into the queue
+	out = append(out, &Scenario{
+		Name: "ack.Queue: [s/1 @T, re-registered by its expiry callback] Expire(T+5s) || Insert(s/2,T+0.2s) || Ack(s/2)",
+		New: func() any {
+			a := &ackSys{q: ack.NewQueue()}
+			var again ack.Callback
+			again = func(expired bool, stored, received packet.Packet) {
+				a.mu.Lock()
+				a.log = append(a.log, fmt.Sprintf("s/1:expired=%v", expired))
+				n := len(a.log)
+				a.mu.Unlock()
+				if expired && n < 4 {
+					a.q.Insert("s", pub1(1), T0.Add(8*time.Second), again)
+				}
+			}
+			a.q.Insert("s", pub1(1), T0, again)
+			return a
+		},
+		Threads: [][]Op{
+			{{"Expire(T+5s)", func(s any) string { s.(*ackSys).q.Expire(T0.Add(5 * time.Second)); return "" }}},
+			{{"Insert(s/2)", func(s any) string {
+				return errs(s.(*ackSys).q.Insert("s", pub1(2), T0.Add(200*time.Millisecond), s.(*ackSys).cb("s/2")))
+			}}},
+			{{"Ack(s/2)", func(s any) string { return errs(s.(*ackSys).q.Ack("s", puback(2))) }}},
+		},
+		Observe: func(s any) string {
+			a := s.(*ackSys)
+			a.q.Expire(T0.Add(1000 * time.Second))
+			return sortedJoin(append([]string{}, a.log...))
+		},
+	})
 	// (3e) a wrong-type acknowledgement racing with the right one and with the sweep
 	out = append(out, &Scenario{
 		Name: "ack.Queue: [s/1 @T] Ack(s/1,wrong type) || Ack(s/1) || Expire(T+5s)",
